@@ -84,9 +84,17 @@ func (e *Encoder) Encode(v interface{}) (err error) {
 }
 
 func (e *Encoder) encodeValue(f field, rt reflect.Type, rv reflect.Value) (err error) {
-	if rv.Kind() == reflect.Interface && !rv.IsNil() {
+	if rv.Kind() == reflect.Interface {
+		if rv.IsNil() {
+			return errors.Errorf("nil value for field %v", f.name)
+		}
+
 		rv = rv.Elem()
 		if rv.Kind() == reflect.Ptr {
+			if rv.IsNil() {
+				return errors.Errorf("nil pointer value for field %v", f.name)
+			}
+
 			rv = rv.Elem()
 		}
 		rt = rv.Type()
